@@ -138,6 +138,10 @@ type _refHolder struct {
 	// complete is set once the list has been read entirely: a later ref to it
 	// can be bound at once instead of waiting for a notify that already happened
 	complete bool
+
+	// converted keeps the copy made for destinations of another slice type, one per type:
+	// n destinations of one list cost one conversion, not n
+	converted map[reflect.Type]reflect.Value
 }
 
 var _refHolderType = reflect.TypeOf(_refHolder{})
@@ -148,19 +152,44 @@ func (h *_refHolder) change(v reflect.Value) {
 		return
 	}
 	h.value = v
+	h.converted = nil
 }
 
 // notice all destinations ref to the value
 func (h *_refHolder) notify() {
 	for _, dest := range h.destinations {
-		SetValue(dest, h.value)
+		h.bind(dest)
 	}
+}
+
+// bind set dest to the list. A destination of another slice type gets a converted copy,
+// made once per type and shared by all destinations of that type
+func (h *_refHolder) bind(dest reflect.Value) {
+	typ := UnpackPtrType(dest.Type())
+	if typ.Kind() == reflect.Slice && h.value.IsValid() && h.value.Type() != typ {
+		cv, ok := h.converted[typ]
+		if !ok {
+			var err error
+			if cv, err = convertValue(h.value, typ); err == nil {
+				if h.converted == nil {
+					h.converted = make(map[reflect.Type]reflect.Value)
+				}
+				h.converted[typ] = cv
+				ok = true
+			}
+		}
+		if ok {
+			SetValue(dest, cv)
+			return
+		}
+	}
+	SetValue(dest, h.value)
 }
 
 // add destination
 func (h *_refHolder) add(dest reflect.Value) {
 	if h.complete {
-		SetValue(dest, h.value)
+		h.bind(dest)
 		return
 	}
 	h.destinations = append(h.destinations, dest)
@@ -169,16 +198,13 @@ func (h *_refHolder) add(dest reflect.Value) {
 // itemValue unpack a decoded element or map value that is stored into a typed container.
 // A complete list that has to be converted to typ is converted once and kept in its ref holder,
 // so that n references to one list cost one conversion, not n
-func itemValue(item interface{}, typ reflect.Type) reflect.Value {
-	var h *_refHolder
-	switch it := item.(type) {
-	case *_refHolder:
-		h = it
-	case reflect.Value:
-		if it.IsValid() && it.CanInterface() {
-			h, _ = it.Interface().(*_refHolder)
+func (d *Decoder) itemValue(item interface{}, typ reflect.Type) reflect.Value {
+	if rv, ok := item.(reflect.Value); ok && typ.Kind() == reflect.Map {
+		if cv, ok := d.convertedMap(rv, typ); ok {
+			return cv
 		}
 	}
+	h := holderOf(item)
 	if h == nil || !h.complete || typ.Kind() != reflect.Slice || h.value.Type() == typ {
 		return EnsureRawValue(item)
 	}
@@ -187,7 +213,59 @@ func itemValue(item interface{}, typ reflect.Type) reflect.Value {
 		return EnsureRawValue(item)
 	}
 	h.value = cv
+	h.converted = nil
 	return cv
+}
+
+// holderOf return the ref holder of a decoded list, nil for anything else
+func holderOf(item interface{}) *_refHolder {
+	switch it := item.(type) {
+	case *_refHolder:
+		return it
+	case reflect.Value:
+		if it.IsValid() && it.CanInterface() {
+			h, _ := it.Interface().(*_refHolder)
+			return h
+		}
+	}
+	return nil
+}
+
+// errUnfinishedList is returned for a reference to a list that is still being read in the
+// place of a list element or a map entry, i.e. a list that contains itself or a list it is part
+// of. Such a reference can only be bound to a struct field, when the list is complete; as an
+// element it would have to be a copy of the list as read so far, and n such copies of a list of
+// n elements make the cost of a message quadratic in its size.
+var errUnfinishedList = newCodecError("readRef", "a list containing itself (a reference to a list that is still being read, as a list element or map entry) is not supported")
+
+// mapRead record that the map has been read completely
+func (d *Decoder) mapRead(m reflect.Value) {
+	if d.mapDone == nil {
+		d.mapDone = make(map[uintptr]bool)
+	}
+	d.mapDone[m.Pointer()] = true
+}
+
+// convertedMap return the copy of a referenced, completely read map for a destination of
+// another map type; the copy is made once per type
+func (d *Decoder) convertedMap(ref reflect.Value, typ reflect.Type) (reflect.Value, bool) {
+	m := RawValue(ref)
+	if !m.IsValid() || m.Kind() != reflect.Map || typ.Kind() != reflect.Map || m.Type() == typ || !d.mapDone[m.Pointer()] {
+		return _zeroValue, false
+	}
+	key := convertKey{m.Pointer(), 0, typ}
+	if cv, ok := d.mapConv[key]; ok {
+		return cv, true
+	}
+	cv, err := convertValue(m, typ)
+	if err != nil {
+		return _zeroValue, false
+	}
+	if d.mapConv == nil {
+		d.mapConv = make(map[convertKey]reflect.Value)
+	}
+	d.mapConv[key] = cv
+	return cv, true
 }
 
 func (d *Decoder) addDecoderRef(v reflect.Value) *_refHolder {
